@@ -435,3 +435,24 @@ def expand_call_roots(ctx, func, roots, depth=2, _seen=None):
             out |= {x for x in sub if x[0] in ('attr', 'call', 'attrname') and
                     (x[0] != 'attr' or x[1].startswith('self.'))}
     return out
+
+
+def value_alternatives(flow, expr, at, depth=6, limit=16):
+    """[(expr, at)]: what `expr` may be, following local names through their reaching plain assignments
+    (one alternative per definition when a name has several, e.g. after an if/else or the branches of an
+    inlined helper); names with other kinds of definitions are left as they are"""
+    out = []
+
+    def rec(e, at_, d):
+        if len(out) >= limit:
+            return
+        if d > 0 and isinstance(e, ast.Name) and e.id in flow.rd.names:
+            ds = flow.def_exprs(e.id, at_)
+            plain = [x for x in ds if x[0] == 'assign' and x[1] is not None]
+            if plain and len(plain) == len(ds):
+                for x in plain:
+                    rec(x[1], x[2], d - 1)
+                return
+        out.append((e, at_))
+    rec(expr, at, depth)
+    return out
